@@ -199,6 +199,23 @@ theorem C15_posterior_joint_counterexample :
       rcases hc' with rfl | rfl <;> simp [PostVar.sel, List.getElem?_eq_none, hd] at h
   · simp [PostVar.sel, List.getElem?_eq_none, hc] at h
 
+/-- Calls on one `PosteriorPredictiveModel` object do not influence each other: whatever individuals were
+    requested before, the `k`-th call uses the parameter matrix of the individual requested in that call
+    (the one a freshly built object would use). -/
+theorem C15_history_independent {α : Type} (o : PostObj α) (is : List Nat) :
+    PostObj.run PostObj.select o is = is.map (fun i => posteriorColumns o.vars i) := by
+  induction is generalizing o with
+  | nil => rfl
+  | cons i is ih => simp [PostObj.run, PostObj.select, ih]
+
+/-- A cache of the flattened posterior that is not keyed on the individual breaks this: with two individuals
+    whose posteriors differ the second call returns the first individual's matrix. -/
+theorem C15_history_cache_counterexample :
+    let v : PostVar Nat := ⟨true, false, [[[some 1, some 2]]]⟩
+    PostObj.run PostObj.selectCached ⟨[v], none⟩ [0, 1] = [some [[some 1]], some [[some 1]]] ∧
+    PostObj.run PostObj.select ⟨[v], none⟩ [0, 1] = [some [[some 1]], some [[some 2]]] := by
+  decide
+
 /-! ## PAM -/
 
 /-- The list "model of ID 1, model of ID 2, …" is a rearrangement of the weighted draws (so every ID's
